@@ -52,12 +52,16 @@ func (fc *FnCtx) specLocScoped(st *State, e SExpr, at ast.Node) (Val, *loc, bool
 		if !ok {
 			return nil, nil, false
 		}
-		ft := fieldType(sv.Typ, x.Sel)
+		pp := promotedPath(sv.Typ, x.Sel)
+		l.path = append(append([]string{}, l.path...), pp...)
+		cur := getPath(fc, root, l.path, "m")
+		var ft types.Type
+		if psv, ok := getPath(fc, root, l.path[:len(l.path)-1], "m").(VStruct); ok {
+			ft = fieldType(psv.Typ, x.Sel)
+		}
 		if ft == nil {
 			return nil, nil, false
 		}
-		cur, _ := fc.structField(sv, x.Sel, "m")
-		l.path = append(append([]string{}, l.path...), x.Sel)
 		l.typ = ft
 		return cur, &l, true
 	}
